@@ -28,7 +28,7 @@ K_LIFE = {'CTOR_OVERLAPS_LIVE', 'CTOR_OUTSIDE_BLOCK', 'CTOR_FROM_DEAD', 'DTOR_OF
 K_LEDGER = {'FREE_UNKNOWN_OR_TWICE', 'FREE_WRONG_SIZE', 'FREE_THROUGH_UNEQUAL_ALLOCATOR', 'LEAK',
             'DATA_NOT_IN_LIVE_BLOCK', 'BLOCK_FROM_UNEQUAL_ALLOCATOR'}
 K_ALLOC = {'GET_ALLOCATOR', 'BLOCK_FROM_UNEQUAL_ALLOCATOR', 'FREE_THROUGH_UNEQUAL_ALLOCATOR', 'ELEMENTWISE_MOVE'}
-K_VALUE = K_SEQ | {'BYSTANDER_CHANGED', 'LOGGED_PARAMETER'}
+K_VALUE = K_SEQ | {'BYSTANDER_CHANGED', 'LOGGED_PARAMETER', 'SHARED_BLOCK'}
 K_STABLE = {'ALLOCATOR_USED', 'BLOCK_CHANGED', 'CAPACITY_CHANGED', 'ADDRESS_MOVED', 'BLOCK_NOT_TRANSFERRED'}
 K_EMPTY = K_SEQ | K_MEM | {'EMPTY_RANGE'}
 MEMCRASH = ('CRASH:ASAN', 'CRASH:SIGSEGV', 'CRASH:SIGBUS', 'CRASH:UBSAN', 'CRASH:SIGABRT')
@@ -59,7 +59,22 @@ def at_reserve(v, unit):
 
 
 def on_empty(v, unit):
-    return v.get('sz0', 1) == 0 or v.get('sz1', 1) == 0
+    """the step starts or ends with no element, or the vector began its life default-constructed (C18)"""
+    return v.get('sz0', 1) == 0 or v.get('sz1', 1) == 0 or v.get('dc') is True
+
+
+def reserve_related(v, unit):
+    """the Reserve step itself, or a later step of a history in which this vector was reserved (C10: the reserved
+    room must really be there)"""
+    if v['n'] == 'Reserve':
+        return True
+    ops = v.get('ops', [])[:max(0, v['s'] - 1)]
+    if not any(o.startswith('O Reserve ') for o in ops):
+        return False
+    return bool(set(v['kinds']) & (K_MEM | K_SEQ)) or is_crash(v)
+
+
+ANY = None
 
 
 def u(scen, cfgs, aks=('AE',), builds=('asan',)):
@@ -69,11 +84,20 @@ def u(scen, cfgs, aks=('AE',), builds=('asan',)):
 def ul(tier):
     """units of the layout universe (spec/GenLayout.tla): a fixed, seed-independent selection per tier"""
     def units():
-        sel = {'quick': [('pairs', 48, 5), ('triples', 600, 7), ('pairs2', 160, 3)],
-               'thorough': [('pairs', 1, 0), ('pairs2', 2, 0), ('triples', 20, 3)]}[tier]
+        # selection by alignment signature (vlib.list_signature), fixed and seed-independent
+        # quick: a stratified sample; thorough: EVERY list without a VaryingSize parameter (their fill model is tiny)
+        # and one list per fine signature of those with one
+        if tier == 'quick':
+            sel = [('pairs', False, True, 1, False), ('pairs2', False, True, 2, False), ('triples', False, True, 8, False),
+                   ('pairs', False, False, 4, False), ('pairs2', False, False, 12, False),
+                   ('triples', False, False, 40, False)]
+        else:
+            sel = [('pairs', True, True, 1, True), ('pairs2', True, True, 1, True), ('triples', True, True, 1, True),
+                   ('pairs', True, False, 1, False), ('pairs2', True, False, 1, False),
+                   ('triples', True, False, 1, False)]
         out = []
-        for name, stride, off in sel:
-            for d in vlib.gen_universe(name)['lists'][off::stride]:
+        for name, fine, cheap, every, everything in sel:
+            for d in vlib.select_lists(name, fine, cheap, every, everything):
                 out.append(('SU', vlib.cfg_of_list(d), 'AE', 'asan0'))
         return out
     return units
@@ -151,7 +175,7 @@ PROPS = {
                          'vectors judged by Trace.tla after every step (values, independence of bystanders)'},
     'C10': {'level': 'model_checking',
             'units': {'quick': u('S1', ALL) + u('SF', VARYING), 'thorough': u('S1', ALL, ('AE', 'NP')) + u('SF', VARYING)},
-            'kinds': K_SEQ | K_MEM | K_STABLE | K_TIGHT | K_LIFE, 'crash': crash_any, 'filter': at_reserve,
+            'kinds': K_SEQ | K_MEM | K_STABLE | K_TIGHT | K_LIFE, 'crash': crash_any, 'filter': reserve_related,
             'technique': 'every Reserve step of the TLC-generated histories (no-op and growing, any fill level) '
                          'judged by Trace.tla: contents, capacity, block stability when n <= capacity'},
     'C16': {'level': 'model_checking',
@@ -162,7 +186,7 @@ PROPS = {
                          'states compared by Trace.tla (JudgeStability/JudgeTransfer)'},
     'C18': {'level': 'model_checking',
             'units': {'quick': u('S1', ALL), 'thorough': u('S1', ALL, ('AE', 'NP'))},
-            'kinds': K_EMPTY, 'crash': crash_any, 'filter': on_empty,
+            'kinds': ANY, 'crash': crash_any, 'filter': on_empty,
             'technique': 'all model transitions from/to states with no element (fresh, capacity 0, '
                          'default-constructed, emptied) replayed under rotating junk patterns and judged by Trace.tla'},
 }
@@ -256,7 +280,7 @@ def relevant(pid, v, unit):
     if p['filter'] and not p['filter'](v, unit):
         return False
     ks = set(v['kinds'])
-    if ks & p['kinds']:
+    if p['kinds'] is ANY or ks & p['kinds']:
         return True
     if p['crash'](v, unit):
         return True
@@ -358,7 +382,7 @@ def write_evidence(pid, tier, seed, results, findings, nviol, lost, wall):
         'units': [{'scenario': k[0], 'config': k[1], 'alloc_kind': k[2], 'build': k[3], 'cuts': k[4],
                    'model_states': r['meta']['states'], 'model_transitions': r['meta']['transitions'],
                    'histories': r['histories'], 'accepted': r['accepted']} for k, r in good],
-        'judgements_routed_to_this_property': sorted(prop['kinds']),
+        'judgements_routed_to_this_property': sorted(prop['kinds']) if prop['kinds'] is not None else ['(every judgement of Trace.tla, on steps selected by the filter)'],
         'known_findings_active': [f['id'] for f in findings],
         'lost_coverage': lost,
         'exhaustive': False,
